@@ -42,7 +42,8 @@ def mk_reader(it, nsync_known=True):
     order = A.fresh_array("order", "int64", (nc,), ranged=False)
     order.facts_on_read = lambda idx, t: [t >= 0, t < nc]
     s2v = A.fresh_array("s2v", "float32", (nc,))
-    meta = {"typeThis": "imec", "snsApLfSy": [SV(nap), 0, SV(nc - nap)], "nSavedChans": SV(nc)}
+    # the announced duration is consistent with the mapped array (C11 proves that open() makes it so): Reader.ns == rows of _raw
+    meta = {"typeThis": "imec", "snsApLfSy": [SV(nap), 0, SV(nc - nap)], "nSavedChans": SV(nc), "imSampRate": 30000.0, "fileTimeSecs": SV(z3.ToReal(ns) / 30000)}
     obj = SObj(spikeglx.Reader, _raw=raw, raw_channel_order=order, channel_conversion_sample2v={"ap": s2v, "lf": A.fresh_array("s2v_lf", "float32", (nc,))}, meta=meta)
     return obj, raw, order, s2v, ns, nc
 
